@@ -136,6 +136,17 @@ func main() {
 			}
 		}
 		if *replay != "" {
+			if want.Rule == "unresolved" {
+				for _, u := range run.UnresolvedList() {
+					if u == want.Construct {
+						fmt.Printf("REPLAY %s unresolved: %s\n", *prop, u)
+						fmt.Printf("VIOLATION property=%s replay=%s\n", *prop, *replay)
+						return 1
+					}
+				}
+				fmt.Printf("REPLAY %s: the anchor is resolved on this tree (%s)\n", *prop, want.Construct)
+				return 0
+			}
 			for _, o := range run.Obls {
 				if o.Rule == want.Rule && o.Key == want.Construct {
 					fmt.Printf("REPLAY %s %s [%s] at %s: %s — %s\n", *prop, o.Rule, o.Key, o.Pos, o.Status, o.Detail)
